@@ -7,6 +7,11 @@ pub fn run(ctx: &mut Ctx) {
     drive(ctx, Prop::C08, "hist", n, Mix { error_sixteenths: 1, max_steps: 24, big_start: false, near_limit: 0, want: Prop::C08 });
     let n = ctx.scaled(if ctx.tier == "thorough" { 600_000 } else { 20_000 });
     drive(ctx, Prop::C08, "hist-long", n, Mix { error_sixteenths: 0, max_steps: 60, big_start: false, near_limit: 0, want: Prop::C08 });
+    // starts just under the limits (insertions sized to land exactly on 8192 among them) and above 65535
+    let n = ctx.scaled(if ctx.tier == "thorough" { 60_000 } else { 2_400 });
+    drive(ctx, Prop::C08, "hist-near-8192", n, Mix { error_sixteenths: 0, max_steps: 5, big_start: false, near_limit: 8192, want: Prop::C08 });
+    let n = ctx.scaled(if ctx.tier == "thorough" { 4_000 } else { 160 });
+    drive(ctx, Prop::C08, "hist-above-65535", n, Mix { error_sixteenths: 0, max_steps: 4, big_start: false, near_limit: 70000, want: Prop::C08 });
     let n = ctx.scaled(if ctx.tier == "thorough" { 400_000 } else { 40_000 });
     drive_header_alias(ctx, Prop::C08, n);
 }
